@@ -401,8 +401,73 @@ func checkLoaderShape(rep *core.Report, r4 *core.RuleRun) {
 	r4.Check(is(kf["EnterpriseNo"], penObj) && is(kf["ElementID"], idObj), name+":key", klit.Pos(),
 		"key = {outer key, inner key}", "store key is not {enterprise number, element id} of the current entry")
 	r4.Check(is(vf["FieldID"], idObj), name+":FieldID", vlit.Pos(), "FieldID = inner key", "FieldID is not the element id the entry is keyed by")
+	// a local that is defined once (`name, typ := p[0], p[1]`) and never assigned again stands for its definition
+	var defOf func(e ast.Expr, depth int) ast.Expr
+	defOf = func(e ast.Expr, depth int) ast.Expr {
+		id, ok := ast.Unparen(e).(*ast.Ident)
+		if !ok || depth > 4 {
+			return e
+		}
+		obj, _ := info.Uses[id].(*types.Var)
+		if obj == nil || obj.Parent() == nil || obj.Parent() == obj.Pkg().Scope() || obj == pObj {
+			return e
+		}
+		var def ast.Expr
+		ndef, other := 0, false
+		ast.Inspect(loader.Body, func(n ast.Node) bool {
+			switch x := n.(type) {
+			case *ast.AssignStmt:
+				for i, l := range x.Lhs {
+					lid, ok := l.(*ast.Ident)
+					if !ok {
+						continue
+					}
+					if info.Defs[lid] == types.Object(obj) {
+						ndef++
+						if len(x.Lhs) == len(x.Rhs) {
+							def = x.Rhs[i]
+						} else {
+							other = true
+						}
+					} else if info.Uses[lid] == types.Object(obj) {
+						other = true
+					}
+				}
+			case *ast.ValueSpec:
+				for i, nm := range x.Names {
+					if info.Defs[nm] == types.Object(obj) {
+						ndef++
+						if len(x.Values) == len(x.Names) {
+							def = x.Values[i]
+						} else {
+							other = true
+						}
+					}
+				}
+			case *ast.IncDecStmt:
+				if lid, ok := x.X.(*ast.Ident); ok && info.Uses[lid] == types.Object(obj) {
+					other = true
+				}
+			case *ast.UnaryExpr:
+				if lid, ok := x.X.(*ast.Ident); ok && x.Op == token.AND && info.Uses[lid] == types.Object(obj) {
+					other = true
+				}
+			case *ast.RangeStmt:
+				for _, kv := range []ast.Expr{x.Key, x.Value} {
+					if lid, ok := kv.(*ast.Ident); ok && (info.Defs[lid] == types.Object(obj) || info.Uses[lid] == types.Object(obj)) {
+						other = true
+					}
+				}
+			}
+			return true
+		})
+		if ndef == 1 && !other && def != nil {
+			return defOf(def, depth+1)
+		}
+		return e
+	}
 	idxOf := func(e ast.Expr) (types.Object, int64, bool) {
-		x, ok := e.(*ast.IndexExpr)
+		x, ok := ast.Unparen(defOf(e, 0)).(*ast.IndexExpr)
 		if !ok {
 			return nil, 0, false
 		}
@@ -412,7 +477,7 @@ func checkLoaderShape(rep *core.Report, r4 *core.RuleRun) {
 	o, c, ok := idxOf(vf["Name"])
 	r4.Check(ok && o == pObj && c == 0, name+":Name", vlit.Pos(), "Name = p[0]", "Name is not item 0 of the entry")
 	typeOK := false
-	if tx, ok := vf["Type"].(*ast.IndexExpr); ok {
+	if tx, ok := ast.Unparen(defOf(vf["Type"], 0)).(*ast.IndexExpr); ok {
 		if fo := objOf(info, tx.X); fo != nil && fo.Name() == "FieldTypes" {
 			o, c, ok := idxOf(tx.Index)
 			typeOK = ok && o == pObj && c == 1
